@@ -67,9 +67,18 @@ def nodeOf (h : Head) (pure : Bool := true) : Ecal.Parse.Node :=
     else List.replicate b.nch none
   Ecal.Parse.Node.mk b.name none b.binding .none (if b.hasLd then .infix else .none) kids []
 
+/-- the bracket rule EXTRACTED from the Go source, on operator heads of the real table -/
+def genBr (p c : Head) (i : Nat) (pure : Bool) : Bool := needsBrackets (bnOf p) (bnOf c pure) i
+
+/-- the rule the driver's expression-level printer uses: the extracted one when available -/
+def realBr : Head → Head → Nat → Bool → Bool := if shapeOk then genBr else nb realPowers realExc
+
 /-- all heads of the real table -/
 def allHeads : List Head :=
   Head.atom :: ((List.range infixOps.length).map Head.bin ++ (List.range prefixOps.length).map Head.pre)
+
+/-- the head belongs to the real table -/
+def inTable (h : Head) : Bool := allHeads.contains h
 
 /-! ### bridge to the full printer model (used by the driver's cross-check) -/
 
